@@ -40,7 +40,11 @@ fn main() {
             };
             props::replay(&session, &PathBuf::from(path))
         }
-        "quick" | "thorough" => props::run(&session),
+        "quick" | "thorough" => {
+            let code = props::run(&session);
+            vharness::genr::case::cleanup_import_dirs();
+            code
+        }
         _ => {
             eprintln!("unknown mode {mode}");
             2
